@@ -453,6 +453,13 @@ class App:
 
             req_succeeded = False
 
+            # NOTE: Render the response that the error handler has composed;
+            #   should that fail as well, it goes out without a body.
+            try:
+                body, length = self._get_body(resp, env.get('wsgi.file_wrapper'))
+            except Exception:
+                pass
+
         resp_status: str = code_to_http_status(resp.status)
         # NOTE: Compare by code; a status line may carry any reason phrase.
         status_code: int = resp.status_code
